@@ -40,3 +40,12 @@ package stateroot
 //@ opt frame off
 //@ requires s != nil && s.mpt != nil && cache != nil
 //@ call addLocalStateRoot requires[cache] arg1 == cache && arg2.Index == index
+
+// (C11) The working trie of the module runs in the module's own mode (with the GC flag when
+// untraceable blocks are removed), whether the database is empty or being reopened.
+//@ prop C11
+//@ func (*Module).Init
+//@ may-panic
+//@ opt frame off
+//@ requires s != nil
+//@ call mpt::NewTrie requires[mode] arg1 == s.mode && arg2 == s.Store
